@@ -77,6 +77,13 @@ def check(run):
         seq += [f"rln set_leaf 0x9 {hex(rand_fr(rng))}"] + l2            # tree changed: stateful check must now reject, root-set check still accepts
         seq += [f"rln delete 0x9"] + l2                                    # back to the producer's root
         seqs.append(seq)
+        # the same verdicts through the C interface, reusing ONE verdict flag the way a C caller does (the lockstep presets the flag
+        # to true and to false and requires the same answer): accepted, altered (must come back false, not "untouched"), accepted
+        v2 = list(vals); v2[4] = (v2[4] + 1) % P
+        tam = rlngen.verify_input(rlngen.join_msg(proof, v2), sig)
+        ll = rlngen.with_oracle(zkh, [(f"lock verify_rln {hx(full)}", msg), (f"lock verify_rln {hx(tam)}", tam[:288]), (f"lock verify_rln {hx(rlngen.verify_input(msg, sig + b'!'))}", msg),
+                                      (f"lock verify {hx(tam[:288])}", tam[:288]), (f"lock verify_roots {hx(full)} {hx(le(rand_fr(rng), 32))}", msg), (f"lock verify_rln {hx(full)}", msg)])
+        seqs.append(["lock new"] + [l.replace("rln set_leaf", "lock set_leaf") for l in M["setup"][1:]] + ll)
     run.cov["field_modifications"] = nmods
     run.rules.append("from real messages: the untampered message through verify / verify_rln_proof / verify_with_roots, every single-field modification of root, external nullifier, x, y, nullifier (+-1, 0, 1, p-1, random, neighbour field), field swaps, single-bit flips of the proof, signal and declared-length changes, verifier tree before/after further updates, root sets containing / not containing / empty / with zero entries; the raw Groth16 verdict of each altered message comes from arkworks directly (oracle), so the exact verdict of all three entry points is predicted; distinct = distinct input line")
-    run.differential("tamper", seqs, spec_canon=rlngen.spec_verdict, shrink=False)
+    run.differential("tamper", seqs, spec_canon=rlngen.spec_verdict, shrink=False, canon=lambda l, x: x[5:] if x.startswith("same ") else x)
